@@ -278,6 +278,14 @@ class Tree:
                 except AnchorMissing:
                     return None           # a local the tables do not depend on
                 self.env[pat["name"]] = ("bool", v) if isinstance(v, bool) else v
+            elif pat.get("p") == "tup":
+                # `let (is_long, is_overlong) = (seg_length > 1, seg_length > 2);`
+                try:
+                    v = self.value(init)
+                    if isinstance(v, tuple) and len(v) == len(pat["pats"]):
+                        self.matches(pat, v)
+                except AnchorMissing:
+                    return None
             return None
         if k == "if":
             c = hirq.strip(e["cond"])
